@@ -131,8 +131,11 @@ class ConcurrentComparer {
     // 3、下一个汇聚读取周期中，这些样本无法计入
     // 不过对于统计场景，这个影响非常微弱，可忽略不计
     if (ABSL_PREDICT_FALSE(_version != local.version)) {
-      local.version = _version;
+      // publish the value before the slot joins the new period: a concurrent
+      // value() must never pair the new version with the previous value
       local.value = value;
+      ::std::atomic_thread_fence(::std::memory_order_release);
+      local.version = _version;
       return *this;
     }
     if (ABSL_PREDICT_FALSE(_comparer(value, local.value))) {
@@ -158,6 +161,7 @@ class ConcurrentComparer {
     T result = EXTREMUM;
     _storage.for_each([&](const Slot& slot) {
       if (slot.version == _version) {
+        ::std::atomic_thread_fence(::std::memory_order_acquire);
         if (!has_result || _comparer(slot.value, result)) {
           result = slot.value;
           has_result = true;
